@@ -76,6 +76,7 @@ package sftp
 //@   property C08, C20, C19
 //@   results ep, rest, err
 //@   ensures err == nil ==> len(rest) + 8 <= len(b)
+//@   ensures err == nil || err == errShortPacket
 //@   modifies nothing
 
 //@ func unmarshalIDString
@@ -83,6 +84,7 @@ package sftp
 //@   results err
 //@   requires id != nil && str != nil
 //@   ensures err == nil ==> len(b) >= 4 && *id == be32(b, 0)
+//@   ensures err == nil || err == errShortPacket
 //@   modifies *id, *str
 
 //@ func unmarshalAttrs
@@ -396,6 +398,7 @@ package sftp
 //@   ensures err == nil ==> len(payload) < maxMsgLength
 
 //@ func (*sshFxInitPacket).UnmarshalBinary
+//@   ensures result == nil || result == errShortPacket
 //@   property C08, C07, C19
 //@   alloc-bound (len(old(b)) << 3) + (old(len(p.Extensions)) << 6) + 4096
 //@   loop 1 invariant len(b) <= len(old(b))
@@ -403,10 +406,12 @@ package sftp
 //@   loop 1 invariant (len(p.Extensions) - old(len(p.Extensions))) << 3 <= len(old(b)) - len(b)
 
 //@ func (*sshFxpClosePacket).UnmarshalBinary
+//@   ensures result == nil || result == errShortPacket
 //@   property C08, C07
 //@   alloc-bound 4*len(b) + 64
 
 //@ func (*sshFxpDataPacket).UnmarshalBinary
+//@   ensures result == nil || result == errShortPacket
 //@   property C08, C07
 //@   alloc-bound 4*len(b) + 64
 
@@ -439,70 +444,90 @@ package sftp
 //@   modifies *p
 
 //@ func (*sshFxpFsetstatPacket).UnmarshalBinary
-//@   property C08, C07
+//@   ensures result == nil || result == errShortPacket
+//@   property C08, C07, C10
 //@   alloc-bound 4*len(b) + 64
+//@   ensures result == nil ==> typeis(p.Attrs, []byte)
 
 //@ func (*sshFxpFstatPacket).UnmarshalBinary
+//@   ensures result == nil || result == errShortPacket
 //@   property C08, C07
 //@   alloc-bound 4*len(b) + 64
 
 //@ func (*sshFxpLstatPacket).UnmarshalBinary
+//@   ensures result == nil || result == errShortPacket
 //@   property C08, C07
 //@   alloc-bound 4*len(b) + 64
 
 //@ func (*sshFxpMkdirPacket).UnmarshalBinary
+//@   ensures result == nil || result == errShortPacket
 //@   property C08, C07
 //@   alloc-bound 4*len(b) + 64
 
 //@ func (*sshFxpOpenPacket).UnmarshalBinary
-//@   property C08, C07
+//@   ensures result == nil || result == errShortPacket
+//@   property C08, C07, C10
 //@   alloc-bound 4*len(b) + 64
+//@   ensures result == nil ==> typeis(p.Attrs, []byte)
 
 //@ func (*sshFxpOpendirPacket).UnmarshalBinary
+//@   ensures result == nil || result == errShortPacket
 //@   property C08, C07
 //@   alloc-bound 4*len(b) + 64
 
 //@ func (*sshFxpReadPacket).UnmarshalBinary
+//@   ensures result == nil || result == errShortPacket
 //@   property C08, C07
 //@   alloc-bound 4*len(b) + 64
 
 //@ func (*sshFxpReaddirPacket).UnmarshalBinary
+//@   ensures result == nil || result == errShortPacket
 //@   property C08, C07
 //@   alloc-bound 4*len(b) + 64
 
 //@ func (*sshFxpReadlinkPacket).UnmarshalBinary
+//@   ensures result == nil || result == errShortPacket
 //@   property C08, C07
 //@   alloc-bound 4*len(b) + 64
 
 //@ func (*sshFxpRealpathPacket).UnmarshalBinary
+//@   ensures result == nil || result == errShortPacket
 //@   property C08, C07
 //@   alloc-bound 4*len(b) + 64
 
 //@ func (*sshFxpRemovePacket).UnmarshalBinary
+//@   ensures result == nil || result == errShortPacket
 //@   property C08, C07
 //@   alloc-bound 4*len(b) + 64
 
 //@ func (*sshFxpRenamePacket).UnmarshalBinary
+//@   ensures result == nil || result == errShortPacket
 //@   property C08, C07
 //@   alloc-bound 4*len(b) + 64
 
 //@ func (*sshFxpRmdirPacket).UnmarshalBinary
+//@   ensures result == nil || result == errShortPacket
 //@   property C08, C07
 //@   alloc-bound 4*len(b) + 64
 
 //@ func (*sshFxpSetstatPacket).UnmarshalBinary
-//@   property C08, C07
+//@   ensures result == nil || result == errShortPacket
+//@   property C08, C07, C10
 //@   alloc-bound 4*len(b) + 64
+//@   ensures result == nil ==> typeis(p.Attrs, []byte)
 
 //@ func (*sshFxpStatPacket).UnmarshalBinary
+//@   ensures result == nil || result == errShortPacket
 //@   property C08, C07
 //@   alloc-bound 4*len(b) + 64
 
 //@ func (*sshFxpSymlinkPacket).UnmarshalBinary
+//@   ensures result == nil || result == errShortPacket
 //@   property C08, C07
 //@   alloc-bound 4*len(b) + 64
 
 //@ func (*sshFxpWritePacket).UnmarshalBinary
+//@   ensures result == nil || result == errShortPacket
 //@   property C08, C07
 //@   alloc-bound 4*len(b) + 64
 
@@ -560,7 +585,7 @@ package sftp
 //@   alloc-bound 4*len(p.pktBytes) + 64
 //@   ensures pkt != nil ==> reqType(pkt)
 //@   ensures pkt == nil ==> err != nil && !isErr(err, errUnknownExtendedPacket)
-//@   ensures pkt != nil && (err == nil || isErr(err, errUnknownExtendedPacket)) ==> extOK(pkt)
+//@   ensures pkt != nil && (err == nil || isErr(err, errUnknownExtendedPacket)) ==> extOK(pkt) && attrsOK(pkt)
 
 //@ func (*packetManager).readyPacket
 //@   property C02, C14
@@ -728,7 +753,7 @@ package sftp
 //@ func (*Server).sftpServerWorker
 //@   property C07, C02, C09
 //@   requires serverOK(svr)
-//@   channel global:type:sftp.orderedRequest invariant m.requestPacket != nil && reqType(m.requestPacket) && extOK(m.requestPacket)
+//@   channel global:type:sftp.orderedRequest invariant m.requestPacket != nil && reqType(m.requestPacket) && extOK(m.requestPacket) && attrsOK(m.requestPacket)
 //@   loop 1 invariant serverOK(svr)
 //@   loop 1 invariant ghost.ready - ghost.taken == old(ghost.ready) - old(ghost.taken)
 //@   loop 1 invariant svr.readOnly == old(svr.readOnly)
@@ -902,3 +927,205 @@ package sftp
 // (not proved: err == nil ==> sftpExtensions[k].Name == extensions[k] for every k -- the copy-on-growth axiom of
 //  append under a quantifier is not decided by the installed solvers within the timeout)
 // (k is an arbitrary fixed index: each clause mentioning k is proved for every k)
+
+// ---------------------------------------------------------------------------
+// RequestServer (request-server.go, request.go)
+// Handler implementations are foreign code: only their interface contracts (from request-interfaces.go) are assumed.
+
+//@ pred rsReqType(p requestPacket) = reqType(p) || typeis(p, *sshFxpExtendedPacketStatVFS) || typeis(p, *sshFxpExtendedPacketPosixRename) || typeis(p, *sshFxpExtendedPacketHardlink)
+//@ pred handlersOK(h Handlers) = h.FileGet != nil && h.FilePut != nil && h.FileCmd != nil && h.FileList != nil
+//@ pred reqsOK(rs *RequestServer) = rs.openRequests != nil && forall(k, string, haskey(rs.openRequests, k) ==> rs.openRequests[k] != nil)
+//@ pred rsOK(rs *RequestServer) = rs != nil && rs.serverConn != nil && (rs.alloc == nil || rs.alloc.used != nil) && rs.pktMgr != nil && pmOK(rs.pktMgr) && handlersOK(rs.Handlers) && reqsOK(rs)
+//@ pred attrsOK(p requestPacket) = (typeis(p, *sshFxpOpenPacket) ==> typeis(p.(*sshFxpOpenPacket).Attrs, []byte)) && (typeis(p, *sshFxpSetstatPacket) ==> typeis(p.(*sshFxpSetstatPacket).Attrs, []byte)) && (typeis(p, *sshFxpFsetstatPacket) ==> typeis(p.(*sshFxpFsetstatPacket).Attrs, []byte))
+
+//@ func (ListerAt).ListAt
+//@   trusted
+//@   results n, err
+//@   ensures 0 <= n && n <= len(arg0)
+//@   ensures forall(i, 0 <= i && i < n ==> arg0[i] != nil)
+//@   modifies elems os.FileInfo
+
+//@ func (io.ReaderAt).ReadAt
+//@   trusted
+//@   results n, err
+//@   ensures 0 <= n && n <= len(p)
+//@   modifies bytes
+
+//@ func (io.WriterAt).WriteAt
+//@   trusted
+//@   results n, err
+//@   ensures 0 <= n && n <= len(p)
+//@   modifies nothing
+
+//@ func (WriterAtReaderAt).ReadAt
+//@   trusted
+//@   results n, err
+//@   ensures 0 <= n && n <= len(p)
+//@   modifies bytes
+
+//@ func (WriterAtReaderAt).WriteAt
+//@   trusted
+//@   results n, err
+//@   ensures 0 <= n && n <= len(p)
+//@   modifies nothing
+
+//@ func (FileLister).Filelist
+//@   trusted
+//@   results la, err
+//@   ensures err == nil ==> la != nil
+//@   modifies nothing
+
+//@ func (LstatFileLister).Lstat
+//@   trusted
+//@   results la, err
+//@   ensures err == nil ==> la != nil
+//@   modifies nothing
+
+//@ func (StatVFSFileCmder).StatVFS
+//@   trusted
+//@   results st, err
+//@   ensures err == nil ==> st != nil
+//@   modifies nothing
+
+//@ func (*RequestServer).getRequest
+//@   property C07, C11
+//@   results r, ok
+//@   requires reqsOK(rs)
+//@   ensures ok ==> r != nil
+//@   ensures ok <==> haskey(rs.openRequests, handle)
+//@   modifies nothing
+
+//@ func (*RequestServer).nextRequest
+//@   property C07, C11
+//@   requires reqsOK(rs) && r != nil
+//@   ensures reqsOK(rs)
+//@   ensures result == r.handle
+//@   modifies rs.handleCount, mapof rs.openRequests, r.handle
+
+//@ func (*RequestServer).closeRequest
+//@   property C07, C11
+//@   requires reqsOK(rs)
+//@   ensures reqsOK(rs)
+
+//@ func (*Request).close
+//@   property C07, C11
+//@   assume-frame
+//@   modifies r.listerAt, r.writerAtReaderAt
+// (frame assumed: Close / cancel functions of handler-provided objects do not touch the server's handle table)
+
+//@ func (*Request).transferError
+//@   property C07, C11
+
+//@ func requestMethod
+//@   property C10, C07
+//@   ensures typeis(p, *sshFxpSetstatPacket) || typeis(p, *sshFxpFsetstatPacket) ==> method == "Setstat"
+//@   ensures typeis(p, *sshFxpRenamePacket) ==> method == "Rename"
+//@   ensures typeis(p, *sshFxpSymlinkPacket) ==> method == "Symlink"
+//@   ensures typeis(p, *sshFxpRemovePacket) ==> method == "Remove"
+//@   ensures typeis(p, *sshFxpStatPacket) || typeis(p, *sshFxpFstatPacket) ==> method == "Stat"
+//@   ensures typeis(p, *sshFxpLstatPacket) ==> method == "Lstat"
+//@   ensures typeis(p, *sshFxpRmdirPacket) ==> method == "Rmdir"
+//@   ensures typeis(p, *sshFxpReadlinkPacket) ==> method == "Readlink"
+//@   ensures typeis(p, *sshFxpMkdirPacket) ==> method == "Mkdir"
+//@   ensures typeis(p, *sshFxpExtendedPacketHardlink) ==> method == "Link"
+//@   ensures typeis(p, *sshFxpOpenPacket) || typeis(p, *sshFxpReadPacket) || typeis(p, *sshFxpWritePacket) || typeis(p, *sshFxpOpendirPacket) || typeis(p, *sshFxpReaddirPacket) ==> method == ""
+//@   modifies nothing
+
+//@ func requestFromPacket
+//@   property C10, C07
+//@   requires ctx != nil && pkt != nil && attrsOK(pkt)
+//@   ensures result != nil
+//@   ensures typeis(pkt, *sshFxpOpenPacket) ==> result.Flags == pkt.(*sshFxpOpenPacket).Pflags
+//@   ensures typeis(pkt, *sshFxpSetstatPacket) ==> result.Flags == pkt.(*sshFxpSetstatPacket).Flags
+//@   ensures typeis(pkt, *sshFxpSymlinkPacket) ==> result.Filepath == pkt.(*sshFxpSymlinkPacket).Targetpath
+//@   ensures result.readerAt == nil && result.writerAt == nil && result.writerAtReaderAt == nil && result.listerAt == nil && result.lsoffset == 0
+
+//@ func packetData
+//@   property C07, C01
+//@   requires alloc == nil || alloc.used != nil
+//@   ensures typeis(p, *sshFxpWritePacket) ==> data == p.(*sshFxpWritePacket).Data && offset == int64(p.(*sshFxpWritePacket).Offset)
+//@   ensures typeis(p, *sshFxpReadPacket) ==> offset == int64(p.(*sshFxpReadPacket).Offset)
+
+//@ func fileget
+//@   property C07, C02, C01
+//@   requires r != nil && pkt != nil && (alloc == nil || alloc.used != nil) && rsReqType(pkt)
+//@   ensures result != nil && result.id() == pkt.id()
+//@   ensures typeis(result, *sshFxpDataPacket) || typeis(result, *sshFxpStatusPacket)
+
+//@ func fileput
+//@   property C07, C02, C01
+//@   requires r != nil && pkt != nil && (alloc == nil || alloc.used != nil) && rsReqType(pkt)
+//@   ensures result != nil && result.id() == pkt.id()
+//@   ensures typeis(result, *sshFxpStatusPacket)
+
+//@ func fileputget
+//@   property C07, C02, C01
+//@   requires r != nil && pkt != nil && (alloc == nil || alloc.used != nil) && rsReqType(pkt)
+//@   ensures result != nil && result.id() == pkt.id()
+//@   ensures typeis(result, *sshFxpDataPacket) || typeis(result, *sshFxpStatusPacket)
+
+//@ func filecmd
+//@   property C07, C02, C10
+//@   requires h != nil && r != nil && pkt != nil && attrsOK(pkt) && rsReqType(pkt)
+//@   ensures result != nil && result.id() == pkt.id()
+//@   ensures typeis(result, *sshFxpStatusPacket) || typeis(result, *StatVFS)
+
+//@ func filelist
+//@   property C07, C02, C16
+//@   requires h != nil && r != nil && pkt != nil && rsReqType(pkt)
+//@   requires MaxFilelist >= 1 && MaxFilelist <= 1000000
+//@   ensures result != nil && result.id() == pkt.id()
+//@   ensures typeis(result, *sshFxpNamePacket) || typeis(result, *sshFxpStatusPacket)
+
+//@ func filestat
+//@   property C07, C02, C10
+//@   requires h != nil && r != nil && pkt != nil && rsReqType(pkt)
+//@   ensures result != nil && result.id() == pkt.id()
+//@   ensures typeis(result, *sshFxpStatResponse) || typeis(result, *sshFxpNamePacket) || typeis(result, *sshFxpStatusPacket)
+
+//@ func readlink
+//@   property C07, C02, C10
+//@   requires readlinkFileLister != nil && r != nil && pkt != nil && rsReqType(pkt)
+//@   ensures result != nil && result.id() == pkt.id()
+//@   ensures typeis(result, *sshFxpNamePacket) || typeis(result, *sshFxpStatusPacket)
+
+//@ func cleanPacketPath
+//@   property C07, C02
+//@   requires pkt != nil
+//@   ensures result != nil && result.id() == pkt.ID
+//@   ensures typeis(result, *sshFxpNamePacket)
+
+//@ func (*Request).call
+//@   property C07, C02, C10
+//@   requires r != nil && pkt != nil && handlersOK(handlers) && attrsOK(pkt) && (alloc == nil || alloc.used != nil) && rsReqType(pkt)
+//@   requires MaxFilelist >= 1 && MaxFilelist <= 1000000
+//@   ensures result != nil && result.id() == pkt.id()
+
+//@ func (*Request).open
+//@   property C07, C02, C10
+//@   requires r != nil && pkt != nil && handlersOK(h) && rsReqType(pkt)
+//@   ensures result != nil && result.id() == pkt.id()
+//@   ensures typeis(result, *sshFxpHandlePacket) || typeis(result, *sshFxpStatusPacket)
+
+//@ func (*Request).opendir
+//@   property C07, C02, C10
+//@   requires r != nil && pkt != nil && handlersOK(h) && rsReqType(pkt)
+//@   ensures result != nil && result.id() == pkt.id()
+//@   ensures typeis(result, *sshFxpHandlePacket) || typeis(result, *sshFxpStatusPacket)
+
+//@ ghost var curID uint32
+
+//@ func (*RequestServer).packetWorker
+//@   property C07, C02, C10, C11
+//@   requires rsOK(rs) && ctx != nil
+//@   requires MaxFilelist >= 1 && MaxFilelist <= 1000000
+//@   loop 1 invariant rsOK(rs) && MaxFilelist >= 1 && MaxFilelist <= 1000000
+//@   loop 1 invariant ghost.ready - ghost.taken == old(ghost.ready) - old(ghost.taken)
+//@   loop 1 ghost ready, taken, curID
+//@   update after recv pktChan#1: ghost.taken = ite(ret1, ghost.taken + 1, ghost.taken)
+//@   update after recv pktChan#1: ghost.curID = ret0.requestPacket.id()
+//@   assert before call (*packetManager).readyPacket#1: arg1.orderid == orderID
+//@   assert before call (*packetManager).readyPacket#1: arg1.responsePacket != nil
+//@   assert before call (*packetManager).readyPacket#1: arg1.responsePacket.id() == ghost.curID
+//@   ensures result == nil
+//@   ensures ghost.ready - ghost.taken == old(ghost.ready) - old(ghost.taken)
